@@ -76,6 +76,16 @@ def attempts(rng, mirror: E.Mirror, world: E.World):
                 c["ambient"] = "none"
             out.append(c)
     out.append({"why": "detach-doc-root", "op": "detach", "target": E.tid(mirror.groups[0]), "retain": False})
+    # the document's root offered to another tree: it has neither a parent nor (without prologue/epilogue) siblings, but
+    # it lives in its document (fix 313e3eb)
+    others = [n for g, p, n in nodes if g != 0 and n[0] == "t"]
+    if others and mirror.groups[0] is not None:
+        tgt = rng.choice(others)
+        k = rng.choice(["append", "insert", "add_following"] if mirror.find(E.tid(tgt))[1] else ["append", "insert"])
+        c = {"why": "attached", "op": k, "target": E.tid(tgt), "offered": E.tid(mirror.groups[0]), "ambient": "none"}
+        if k == "insert":
+            c["index"] = rng.randint(0, len(tgt[5]))
+        out.append(c)
     for g, n in roots:
         if n[0] == "t" and g != 0 and rng.random() < 0.5:
             out.append({"why": "retain-parentless", "op": "detach", "target": E.tid(n), "retain": True})
